@@ -370,3 +370,31 @@ def ood_reason(j):
     if len(set(names)) != len(names) or set(names) & set(j.get("locals") or []) or set(names) & {"_", "."}:
         return "import specs of the file do not bind distinct fresh names"
     return "parameter name that is not an identifier, or other"
+
+
+KEYWORDS = {"break", "case", "chan", "const", "continue", "default", "defer", "else", "fallthrough", "for", "func", "go",
+            "goto", "if", "import", "interface", "map", "package", "range", "return", "select", "struct", "switch", "type", "var"}
+
+
+def names_from_literals(gencommon_dir, limit=40):
+    """parameter names built from the string literals of the naming code under test (params.go, method.go
+    and whatever else the package holds): when a tie breaks, the widened farm draws user names from what the
+    changed source mentions — a literal `_` gives `_`, `_x`, `x_`, `_0`, `__`; `arg` gives arg, arg0, arg1, argx …"""
+    lits = set()
+    for name in sorted(os.listdir(gencommon_dir)):
+        if not name.endswith(".go") or name.endswith("_test.go"):
+            continue
+        try:
+            src = open(os.path.join(gencommon_dir, name), encoding="utf-8").read()
+        except OSError:
+            continue
+        for m in re.finditer(r'"([A-Za-z0-9_]{1,10})"|`([A-Za-z0-9_]{1,10})`|\'(.)\'', src):
+            lits.add(m.group(1) or m.group(2) or m.group(3))
+    out = []
+    for lit in sorted(lits):
+        for cand in (lit, lit + "x", "x" + lit, lit + "0", lit + "1", lit + lit, lit.upper(), lit.capitalize()):
+            if re.match(r"^[A-Za-z_][A-Za-z0-9_]*$", cand) and cand != "_" and cand not in KEYWORDS and cand not in out:
+                out.append(cand)
+    # the shortest first: they are the likeliest prefixes / special cases
+    out.sort(key=lambda x: (len(x), x))
+    return out[:limit]
